@@ -15,8 +15,10 @@ EXPLANATION = ("D1 tables exist for every zone and orientation, vectors have 12 
                "MetInfo.zc equals its key; D2 ClimateZone Display/TryFrom and Orientation names agree with each other and with climate's lists; "
                "D3 nday_from_md accepts every calendar date and returns cumulative MONTH_DAYS + day; D4 I_dir = max(0, .), the two I_dif_tot copies agree, "
                "I_dif_grnd has the form from which 'downward surface receives albedo x global horizontal' follows, clearness thresholds increase")
-DECIDED = ["D1 embedded tables complete and non-negative", "D2 zone and orientation names agree", "D3 day numbers (domain and formula)", "D4 structural radiation facts, incidence angle formula (eq. 17) and its wiring", "D5 sun altitude and azimuth formulas agree with spherical astronomy (normalised comparison, 6 quadrant sign cases)"]
-UNDECIDED = ["floating-point error of the sun position near the zenith/horizon", "horizontal-surface conservation", "tables = model(zonaD3.met) to table precision"]
+DECIDED = ["D1 embedded tables complete and non-negative", "D2 zone and orientation names agree", "D3 day numbers (domain and formula)", "D4 structural radiation facts, incidence angle formula (eq. 17) and its wiring", "D5 sun altitude and azimuth formulas agree with spherical astronomy (normalised comparison, 8 quadrant sign cases incl. sun due east/west)",
+           "D6 every argument of an inverse sine/cosine in the solar model is a sine/cosine or clamped to [-1, 1]",
+           "D7 every entry of MONTHLYRADDATA and of climate::ORIENTATIONS is named after the class Orientation::from gives its own azimuth (no mirrored facade)"]
+UNDECIDED = ["floating-point error of the sun position near the horizon", "horizontal-surface conservation", "the numbers of the tables = model(zonaD3.met) to table precision (only their labelling is decided)"]
 ASSUMPTIONS = ["the vec!/HashMap::insert lowering of this toolchain (recognised structurally; a change makes the check exit 2, not pass)"]
 LEVEL_TEXT = ("Partial: the table/name/day-number clauses and four structural identities are decided exhaustively from the program text as compiled (every one of the "
               "~9000 literals is read from MIR and checked; key sets are compared with the enum's variants). The numeric core - solar geometry against spherical "
